@@ -15,6 +15,22 @@ CHECKS = {
                      'graph, the Master conditions and the slave-after-Master order',
                 note='bounded: cluster size, ticks, deviations and faults as listed in the evidence; FIFO channels; atomic '
                      'handlers; OS threads, sockets and supervisord are replaced by the World harness'),
+    'C11': dict(engine='E2-seq', category='exploration', technique=E2, ref='DESIGN.md section 4, C11',
+                text='every sequence (to the depth bound, or to the fixpoint of the product state space) of snapshots, '
+                     'events, losses, removals and forced states over 2-3 instances is applied to the real ProcessStatus '
+                     'and to an independent reference model of the statement; identifiers, conflict flag, displayed state '
+                     'and expected_exit are compared after every step',
+                note='alphabet: 8 states x {snapshot, event}, loss, removal, forced FATAL/STOPPED x {targeted, untargeted} x '
+                     '{older, equal, newer}; removal of a running entry and the cases the statement leaves open are not judged'),
+    'C15': dict(engine='E2-seq', category='exploration', technique='bounded-exhaustive input enumeration of the real '
+                'ApplicationStatus against an independent reference definition (all state vectors of 1-3 processes, all '
+                'formulas up to 2-3 operators, hostile list with side-effect interception)',
+                ref='DESIGN.md section 4, C15',
+                text='the state priority rule, the required-based status and the formula evaluator are compared with a '
+                     'reference written from the statement on every generated input; totality and absence of side effects '
+                     'are checked on hostile formulas with eval/exec/open/compile/print/os.system wrapped',
+                note='formula grammar bounded by operator count and 7 leaves; minor failure under a formula is not defined '
+                     'by the statement and not compared'),
 }
 
 ENGINES = [
